@@ -42,6 +42,8 @@ class Tr:
         self.base_env = {}
         self.ret_stack = []
         self.interp_names = set()
+        self.class_name = 'MetamathConverter'
+        self.records = {'Proof': ['labels', 'applied_lemmas']}   # record constructors: class name -> field names
 
     def table(self, node, pyname):
         if pyname not in self.tables:
@@ -81,13 +83,24 @@ class Tr:
                 return False
         return True
 
-    def key_of(self, e):
-        """pseudo-variable name of an attribute chain such as result.applied_lemmas"""
+    def key_of(self, e, env=None):
+        """pseudo-variable name of an attribute chain such as result.applied_lemmas; a parameter that stands for the statement
+        object (passed down to a helper) is replaced by `statement`"""
         if isinstance(e, ast.Name):
+            if env is not None and e.id in env and str(env[e.id][1]).startswith('obj:'):
+                return env[e.id][1][4:]
             return e.id
         if isinstance(e, ast.Attribute):
-            b = self.key_of(e.value)
+            b = self.key_of(e.value, env)
             return None if b is None else b + '.' + e.attr
+        return None
+
+    def callee(self, f):
+        """python name of the function a call refers to: f(..), self.f(..), cls.f(..), <Class>.f(..)"""
+        if isinstance(f, ast.Name):
+            return f.id
+        if isinstance(f, ast.Attribute) and isinstance(f.value, ast.Name) and f.value.id in ('self', 'cls', self.class_name):
+            return f.attr
         return None
 
     def cx(self, e, env, k):
@@ -120,7 +133,7 @@ class Tr:
                 return k(*self.table(e, e.id))
             fail(e, 'unknown name')
         if isinstance(e, ast.Attribute):
-            key = self.key_of(e)
+            key = self.key_of(e, env)
             if key in env:
                 return self.cx(ast.Name(id=key), env, k)
             if isinstance(e.value, ast.Name) and e.value.id in env and env[e.value.id][1] == 'fstmt':
@@ -225,6 +238,9 @@ class Tr:
             return self.cx(e.value, env, kv)
         if isinstance(e, ast.Call):
             f = e.func
+            if self.callee(f) is not None and (self.callee(f) in self.inline_defs or self.callee(f) in self.funcs) and not isinstance(f, ast.Name):
+                e = ast.copy_location(ast.Call(func=ast.Name(id=self.callee(f), ctx=ast.Load()), args=e.args, keywords=e.keywords), e)
+                f = e.func
             if isinstance(f, ast.Name):
                 nm = f.id
                 if nm == 'pow' and len(e.args) == 2:
@@ -250,9 +266,20 @@ class Tr:
                         fail(e, 'enumerate start that is not an integer literal')
                     return self.cx(en.args[0], env, lambda a, ta: k(f'(py_dict_enum {b} {a})', 'dict_is') if ta == 'list_str'
                                    else fail(e, f'dict(enumerate(..)) over a {ta}'))
+                if nm in self.records:
+                    fields = self.records[nm]
+                    argmap = dict(zip(fields, e.args))
+                    for kw in e.keywords:
+                        if kw.arg not in fields or kw.arg in argmap:
+                            fail(e, 'record constructor with an unknown / repeated field')
+                        argmap[kw.arg] = kw.value
+                    if len(argmap) != len(fields):
+                        fail(e, 'record constructor without all its fields')
+                    return self.cx(ast.copy_location(ast.Tuple(elts=[argmap[fl] for fl in fields], ctx=ast.Load()), e), env,
+                                   lambda a, ta: k(a, 'tuple:' + nm))
                 if nm in self.inline_defs:
                     fd = self.inline_defs[nm]
-                    names = [a.arg for a in fd.args.args]
+                    names = [a.arg for a in fd.args.args if a.arg not in ('self', 'cls')]
                     if len(names) != len(e.args) or e.keywords:
                         fail(e, 'call of a nested helper with other than its positional parameters')
 
@@ -263,7 +290,10 @@ class Tr:
                                 return self.block(list(fd.body), env_fn, lambda e2: fail(fd, 'helper can end without return'), None)
                             finally:
                                 self.ret_stack.pop()
-                        ann = ast.unparse(fd.args.args[i].annotation) if fd.args.args[i].annotation is not None else None
+                        params = [a for a in fd.args.args if a.arg not in ('self', 'cls')]
+                        ann = ast.unparse(params[i].annotation) if params[i].annotation is not None else None
+                        if self.key_of(e.args[i], env) == 'statement':
+                            return args(i + 1, {**env_fn, names[i]: (None, 'obj:statement')})
                         if ann not in self.PTYPES or self.PTYPES[ann][1] == 'dict_is':
                             fail(fd, f'helper parameter {names[i]} with unsupported annotation {ann}')
                         return self.cx(e.args[i], env, lambda a, ta: args(i + 1, {**env_fn, names[i]: (a, self.PTYPES[ann][1])}))
@@ -287,7 +317,7 @@ class Tr:
                 if f.attr == 'isspace' and not e.args:
                     return self.cx(f.value, env, lambda a, ta: k(f'(is_space {a})', 'bool') if ta == 'char'
                                    else fail(e, 'isspace on a non-character'))
-                if f.attr == 'get_metavariables' and not e.args and isinstance(f.value, ast.Name) and f.value.id == 'statement':
+                if f.attr == 'get_metavariables' and not e.args and self.key_of(f.value, env) == 'statement':
                     return k('ctx_metavars', 'set_str')
             fail(e, 'unsupported call')
         if isinstance(e, ast.Tuple):
@@ -356,8 +386,8 @@ class Tr:
                             else:
                                 add(self.key_of(tt))
                     v = n.value
-                    if isinstance(v, ast.Call) and isinstance(v.func, ast.Name) and v.func.id in self.funcs:
-                        for p in self.funcs[v.func.id]['mutated']:
+                    if isinstance(v, ast.Call) and self.callee(v.func) in self.funcs:
+                        for p in self.funcs[self.callee(v.func)]['mutated']:
                             add(self.key_of(v.args[p]))
                 if isinstance(n, ast.Call) and isinstance(n.func, ast.Attribute):
                     if n.func.attr == 'append':
@@ -403,16 +433,26 @@ class Tr:
                 fail(s, 'multiple assignment')
             t = targets[0]
             # X = Proof(a, b): two pseudo-variables X.labels, X.applied_lemmas
-            if isinstance(value, ast.Call) and isinstance(value.func, ast.Name) and value.func.id == 'Proof' and isinstance(t, ast.Name):
-                if len(value.args) != 2:
-                    fail(s, 'Proof(...) with other than two arguments')
-                return self.cx(value.args[0], env, lambda a, ta: self.cx(value.args[1], env, lambda b, tb: (
-                    cont({**env, t.id + '.labels': (a, ta),
-                          t.id + '.applied_lemmas': (b, 'list_int' if tb == 'list_any' else tb),
-                          t.id: (None, 'proofobj')}))))
+            if isinstance(value, ast.Call) and isinstance(value.func, ast.Name) and value.func.id in self.records and isinstance(t, ast.Name):
+                # X = Record(a, b): one pseudo-variable X.<field> per field
+                fields = self.records[value.func.id]
+                argmap = dict(zip(fields, value.args))
+                for kw in value.keywords:
+                    if kw.arg not in fields or kw.arg in argmap:
+                        fail(s, 'record constructor with an unknown / repeated field')
+                    argmap[kw.arg] = kw.value
+                if len(argmap) != len(fields) or len(value.args) > len(fields):
+                    fail(s, 'record constructor without exactly its fields')
+
+                def flds(i, env2):
+                    if i == len(fields):
+                        return cont({**env2, t.id: (None, 'record')})
+                    return self.cx(argmap[fields[i]], env, lambda a, ta: flds(i + 1, {
+                        **env2, t.id + '.' + fields[i]: (a, {'list_any': 'list_int' if fields[i] == 'applied_lemmas' else 'list_term'}.get(ta, ta))}))
+                return flds(0, dict(env))
             # call of a user function (possibly mutating a dict argument), result to a name or a pair of names
-            if isinstance(value, ast.Call) and isinstance(value.func, ast.Name) and value.func.id in self.funcs:
-                fi = self.funcs[value.func.id]
+            if isinstance(value, ast.Call) and self.callee(value.func) in self.funcs:
+                fi = self.funcs[self.callee(value.func)]
 
                 def args(i, acc):
                     if i == len(value.args):
@@ -424,7 +464,14 @@ class Tr:
                                 fail(s, 'mutated argument is not a variable')
                             pats.append(cname(key))
                             env2[key] = (cname(key), env[key][1])
-                        if isinstance(t, ast.Name):
+                        if isinstance(t, ast.Name) and fi['ret'] == 'tuple' and fi.get('ret_fields'):
+                            # the result is a record read by attribute: X.<field>
+                            names = [t.id + '.' + fl for fl in fi['ret_fields']]
+                            for nm2, ty in zip(names, fi['ret_types']):
+                                env2[nm2] = (cname(nm2), ty)
+                            env2[t.id] = (None, 'record')
+                            pats.append('(' + ', '.join(cname(x) for x in names) + ')')
+                        elif isinstance(t, ast.Name):
                             env2[t.id] = (cname(t.id), fi['ret'])
                             pats.append(cname(t.id))
                         elif isinstance(t, ast.Tuple) and all(isinstance(x, ast.Name) for x in t.elts) and fi['ret'] == 'tuple':
@@ -525,6 +572,12 @@ class Tr:
             env2['stack.top'] = ('v_stack__top', 'opt_term')
             return txt + self.block(rest, env2, k_end, loop)
         if isinstance(s, ast.If):
+            if isinstance(s.test, ast.Compare) and len(s.test.ops) == 1 and isinstance(s.test.ops[0], (ast.NotEq, ast.NotIn)) and s.orelse:
+                # `if a != b: A else: B`  =  `if a == b: B else: A`   (only when there is an else branch: the head of the replay loop
+                # is `if lemma not in labels: ...; continue`)
+                pos = ast.Eq() if isinstance(s.test.ops[0], ast.NotEq) else ast.In()
+                t2 = ast.copy_location(ast.Compare(left=s.test.left, ops=[pos], comparators=s.test.comparators), s.test)
+                return self.block([ast.copy_location(ast.If(test=t2, body=list(s.orelse), orelse=list(s.body)), s)] + rest, env, k_end, loop)
             if isinstance(s.test, ast.UnaryOp) and isinstance(s.test.op, ast.Not):
                 # `if not c: A else: B`  =  `if c: B else: A`
                 return self.block([ast.copy_location(ast.If(test=s.test.operand, body=list(s.orelse) or [ast.Pass()],
@@ -545,7 +598,17 @@ class Tr:
             if loop is not None or s.value is None:
                 fail(s, 'return inside a loop / without value')
             if self.ret_stack:
-                return self.cx(s.value, env, self.ret_stack[-1])
+                kret = self.ret_stack[-1]
+
+                def leave(a, ta):
+                    # what follows the return is the code AFTER the call site: it is no longer inside the inlined helper
+                    saved = self.ret_stack
+                    self.ret_stack = saved[:-1]
+                    try:
+                        return kret(a, ta)
+                    finally:
+                        self.ret_stack = saved
+                return self.cx(s.value, env, leave)
             return self.cx(s.value, env, lambda a, ta: self.ret(a, ta, env))
         if isinstance(s, ast.For):
             return self.loop(s, env, cont)
@@ -553,6 +616,9 @@ class Tr:
 
     def ret(self, a, ta, env):
         mut = [env[p][0] for p in self.cur_mutated]
+        if ta.startswith('tuple:'):
+            self.cur_ret_fields = self.records[ta[6:]]
+            ta = 'tuple'
         self.cur_ret.append(ta)
         if mut:
             return 'Some (' + ', '.join(mut + [a]) + ')'
@@ -657,12 +723,12 @@ class Tr:
                 for t in n.targets:
                     if isinstance(t, ast.Subscript) and isinstance(t.value, ast.Name) and t.value.id in names and t.value.id not in mut:
                         mut.append(t.value.id)
-        self.cur_mutated, self.cur_ret = mut, []
+        self.cur_mutated, self.cur_ret, self.cur_ret_fields = mut, [], None
         txt = self.block(stmts, env, lambda e2: fail(fd, 'function can end without return'), None)
         rets = set(self.cur_ret)
         if len(rets) != 1:
             fail(fd, f'return types {rets}')
-        self.funcs[fd.name] = dict(coq=coq, mutated=[names.index(m) for m in mut], ret=rets.pop())
+        self.funcs[fd.name] = dict(coq=coq, mutated=[names.index(m) for m in mut], ret=rets.pop(), ret_fields=self.cur_ret_fields)
         return f'Definition {coq} {" ".join(params)} :=\n{txt}.\n'
 
 
@@ -683,6 +749,8 @@ def indent(txt):
 
 
 def generate(repo):
+    import sys
+    sys.setrecursionlimit(max(sys.getrecursionlimit(), 20000))     # the compiler is written in continuation-passing style
     pkg = os.path.join(repo, 'generation', 'src', 'proof_generation', 'metamath')
     conv = ast.parse(open(os.path.join(pkg, 'converter', 'converter.py')).read())
     trans = ast.parse(open(os.path.join(pkg, 'translate.py')).read())
@@ -766,25 +834,71 @@ def generate(repo):
             nested[s.name] = s
             continue
         tail.append(s)
-    MAIN = ('parse_lemmas', 'split_proof', 'convert_to_number')
-    for need in MAIN:
-        if need not in nested:
-            raise SystemExit(f'mmdecode translator: nested function {need} not found in _import_proof')
-    # any other nested helper is inlined at its call sites (a helper = its body with the parameters substituted)
-    for nm, fd in nested.items():
-        if nm not in MAIN:
-            if fd.args.kwonlyargs or fd.args.vararg or fd.args.kwarg or fd.args.defaults or fd.decorator_list:
-                fail(fd, 'nested helper with defaults / decorators / variadic parameters')
+    # ---- which function plays which role is decided by what the functions DO, not by their names or where they live:
+    #      candidates = nested functions of _import_proof, methods of the class, module-level functions
+    cls_node = next(n for n in ast.walk(conv) if isinstance(n, ast.ClassDef) and n.name == 'MetamathConverter')
+    cands = {}
+    for n in conv.body:
+        if isinstance(n, ast.FunctionDef):
+            cands[n.name] = n
+    for n in cls_node.body:
+        if isinstance(n, ast.FunctionDef) and n.name != '_import_proof':
+            cands[n.name] = n
+    cands.update(nested)
+
+    def calls(fd):
+        return {T.callee(c.func) for c in ast.walk(fd) if isinstance(c, ast.Call) and T.callee(c.func) in cands}
+
+    # reachable from _import_proof
+    reach, todo = set(), [ip]
+    while todo:
+        for nm in calls(todo.pop()):
+            if nm not in reach:
+                reach.add(nm)
+                todo.append(cands[nm])
+
+    def stores_into_dict_param(fd):
+        ps = {a.arg for a in fd.args.args if a.annotation is not None and ast.unparse(a.annotation).startswith('dict[')}
+        return any(isinstance(n, ast.Assign) and any(isinstance(t, ast.Subscript) and isinstance(t.value, ast.Name) and t.value.id in ps
+                                                     for t in n.targets) for n in ast.walk(fd))
+
+    def subscripts_table(fd):
+        return any(isinstance(n, ast.Subscript) and isinstance(n.value, ast.Name) and n.value.id in T.consts
+                   and isinstance(n.ctx, ast.Load) for n in ast.walk(fd))
+
+    def one(what, names):
+        if len(names) != 1:
+            raise SystemExit(f'mmdecode translator: expected exactly one function that {what}, found {sorted(names)}')
+        return next(iter(names))
+    r_parse = one('stores labels into a dict parameter', {n for n in reach if stores_into_dict_param(cands[n])})
+    r_convert = one('looks letters up in the digit tables', {n for n in reach if subscripts_table(cands[n])})
+    r_split = one('calls the label-block parser', {n for n in reach if r_parse in calls(cands[n])})
+    roles = {r_convert: 'gen_convert_to_number', r_parse: 'gen_parse_lemmas', r_split: 'gen_split_proof'}
+    # record classes of the module (NamedTuple with annotated fields) are tuples read by attribute
+    for n in conv.body:
+        if isinstance(n, ast.ClassDef) and any((isinstance(bs, ast.Name) and bs.id == 'NamedTuple') for bs in n.bases):
+            T.records[n.name] = [st.target.id for st in n.body if isinstance(st, ast.AnnAssign) and isinstance(st.target, ast.Name)]
+    # every other reachable function is inlined at its call sites (a helper = its body with the parameters substituted)
+    for nm in reach:
+        fd = cands[nm]
+        if nm not in roles:
+            deco = [ast.unparse(d) for d in fd.decorator_list]
+            if fd.args.kwonlyargs or fd.args.vararg or fd.args.kwarg or fd.args.defaults or any(d != 'staticmethod' for d in deco):
+                fail(fd, 'helper with defaults / decorators / variadic parameters')
             T.inline_defs[nm] = fd
+    for nm in roles:
+        deco = [ast.unparse(d) for d in cands[nm].decorator_list]
+        if any(d != 'staticmethod' for d in deco):
+            fail(cands[nm], 'decorated function')
     T.base_env = {'statement.proof': ('v_statement_proof', 'str')}
     defs_pos = len(out)
     out += ['Section Ctx.', '(** the database statements split_proof walks and the set statement.get_metavariables() (membership only) *)',
             'Variable ctx_statements : list gstmt.', 'Variable ctx_metavars : list str.', '']
     # order: callees first
-    out.append(T.function(nested['convert_to_number'], 'gen_convert_to_number'))
-    out.append(T.function(nested['parse_lemmas'], 'gen_parse_lemmas'))
-    out.append(T.function(nested['split_proof'], 'gen_split_proof'))
-    T.funcs['split_proof']['ret_types'] = ['dict_is', 'str']
+    out.append(T.function(cands[r_convert], 'gen_convert_to_number'))
+    out.append(T.function(cands[r_parse], 'gen_parse_lemmas'))
+    out.append(T.function(cands[r_split], 'gen_split_proof'))
+    T.funcs[r_split]['ret_types'] = ['dict_is', 'str']
     # tail of _import_proof: statement.proof is the only thing it reads from the statement
     fake = ast.FunctionDef(name='_import_proof_tail', args=ast.arguments(posonlyargs=[], args=[], kwonlyargs=[], kw_defaults=[], defaults=[]),
                            body=tail, decorator_list=[], lineno=ip.lineno)
